@@ -116,6 +116,12 @@ CLAIMED = {
         "Seam L3. ICU4X data is the trusted base for canonical identifiers and directionality. Surrounding whitespace may be accepted or refused (never another locale).",
         "DESIGN.md §3 C13",
     ),
+    "C17": (
+        "exhaustive enumeration of hostile string contents x ordered subsets of touched translation units, rendered natively by probe crates built with dynamic_load+ssr, decoded by an independent HTML/JS literal reader",
+        "All 196 two-character strings over 14 hostile characters plus </script>, <!--, -->, quotes, backtick, newlines, U+2028/9 (alone and inside sentences) are the translations of two probe crates; <I18nContextProvider> is rendered to HTML for every ordered subset of touched (locale, namespace) units and for a context-driven render with a locale switch; the script element, cut as an HTML tokenizer cuts it, must be one valid assignment whose decoded array lists exactly the touched units, each with the table its server function exports.",
+        "Seam L3 (dynamic_load + ssr), native rendering. The hydrate-side consumer needs a browser and is not executed.",
+        "DESIGN.md §3 C17",
+    ),
 }
 
 NOT_YET = "check not built yet in this round (design in DESIGN.md §3); no claim is made"
